@@ -122,27 +122,35 @@ CHECKS["C08"] = {
 CHECKS["C12"] = {
   "text": "Theorems over ALL schedules (induction over the schedule via an inductive invariant, any number N of processes): in the "
           "Lean transition system of lock.rs (one transition = one system call of one process: exists, open, read, the "
-          "clock/kill(pid,0) decision, unlink, mkdir, open O_EXCL, write, work, Drop's exists+unlink, exit; inode identity, "
-          "seconds clock, pid liveness) at most one process owns the lock, an owner's file is never unlinked by another process, "
-          "a failed acquire never enters and the file is gone when nobody owns it - from 'no lock file' and from 'held by a live "
-          "scheduled process', while nobody is older than 300 s and either terminated processes linger or N <= 2. Each hypothesis "
-          "is shown necessary by a kernel-evaluated witness schedule (orphan/stale check-then-unlink race, 3-process exit race, "
-          "holder older than 300 s evicted, Drop removing a foreign lock, malformed file blocking for ever [also a theorem over all "
-          "schedules], future timestamp panic); the full statement C12_full is refuted. A generated table (call graph of "
-          "LockFile::acquire per CLI command, fingerprint of acquire/drop, timeout, decision chain) ties the model to the source: "
-          "plan/rename/test-lock lock, apply/undo/redo/replace do not. On every run: real LockFile::acquire in-process on an "
-          "exhaustive grid of injected lock files vs the model; every mutating CLI command under a held lock; release after "
-          "normal/error/SIGINT/SIGTERM exit; and model-enumerated interleavings of the system calls of 2-3 real renamify "
-          "processes driven by the LD_PRELOAD scheduler (quick: all 56 from absent + witnesses + samples; thorough: all "
-          "interleavings from each initial state), outcome / lock content / simultaneous holders compared with the model.",
+          "clock/kill(pid,0) decision, unlink, mkdir, hard_link publish (or create_new + write), work, Drop's content check + "
+          "unlink, Ctrl-C at the confirmation prompt, exit; inode identity, seconds clock, pid liveness; the variant of "
+          "acquire/drop is a set of state flags regenerated from the source) at most one process owns the lock, an owner's file "
+          "is never unlinked by another process, a failed acquire never enters and the file is gone when nobody owns it - from "
+          "'no lock file' and from 'held by a live scheduled process', while nobody is older than 300 s and either terminated "
+          "processes linger or N <= 2 (mutex_absent_source, mutex_live_holder_source: for the acquire the source has; "
+          "side condition 'unparsable files are removed only if the lock file is published complete' proved for the "
+          "source). Each hypothesis is shown necessary by a kernel-evaluated witness schedule (orphan/stale/unparsable "
+          "check-then-unlink race, 3-process exit race, holder older than 300 s evicted; the repaired defects - empty-window "
+          "race of 9509d2d, Drop removing a foreign lock, malformed file blocking, future timestamp - are kept as theorems "
+          "about the old variants); the full statement C12_full is refuted. A generated table (call graph of "
+          "LockFile::acquire per CLI command, fingerprints of acquire/drop/release_held_locks, timeout, decision chain, "
+          "publish/abandon/drop-check/saturating flags) ties the model to the source: every mutating command locks "
+          "(all_mutators_lock), dry runs do not. On every run: real LockFile::acquire in-process on an exhaustive grid of "
+          "injected lock files vs the model; every mutating CLI command under a held lock, dry runs under a held lock, "
+          "release after normal/error/SIGINT/SIGTERM exit and after Ctrl-C at the prompt (pty); model-enumerated "
+          "interleavings of the system calls of 2-3 real renamify processes driven by the LD_PRELOAD scheduler (quick: all "
+          "from absent + witnesses + samples; thorough: all interleavings from each initial state), outcome / lock content / "
+          "simultaneous holders compared with the model.",
   "design_ref": "DESIGN.md section 4, C12",
   "technique": "Lean 4 proof (inductive invariant of a transition system, all schedules, any N) + kernel-evaluated witness schedules "
-               "+ generated lock-user table + differential correspondence (in-process and scheduled real processes) + CLI oracle",
-  "note": TB + "POSIX semantics of stat/open/read/unlink/open(O_CREAT|O_EXCL)/write on a local file system, each call atomic; "
+               "+ generated lock-user table and source-variant flags + differential correspondence (in-process and scheduled "
+               "real processes) + CLI oracle",
+  "note": TB + "POSIX semantics of stat/open/read/unlink/link/open(O_CREAT|O_EXCL)/write on a local file system, each call atomic; "
           "kill(pid,0)==0 iff alive (no pid reuse, same user); one short write is atomic; wall clock monotone inside the "
-          "300 s window of the mutex theorems; Unicode white space other than ASCII in the lock file is not modelled; NFS, "
-          "Windows (OpenProcess) and signal delivery inside acquire are outside the model; the call-graph translator is "
-          "name-based (over-approximates 'reaches acquire').",
+          "300 s window of the mutex theorems; Drop's open+read of the content check is one model step; write failures and "
+          "HELD_LOCKS.try_lock contention are not modelled; Unicode white space other than ASCII in the lock file is not "
+          "modelled; NFS, file systems without hard links, Windows (OpenProcess) and signal delivery inside acquire are "
+          "outside the model; the call-graph translator is name-based (over-approximates 'reaches acquire').",
  }
 CHECKS["C19"] = {
   "text": "Finite decision table proved by kernel evaluation: for every command x {--output json, summary} x --quiet x --dry-run x -y x "
